@@ -311,7 +311,8 @@ class TwoSymm(AssemblyBase):
                 for pat in pats:
                     out.append(dict(shells=shells, method="mix", types=list(pat), trailing=trailing))
             out.append(dict(shells=shells, method="lincomb", types=["spherical", "cartesian", "spherical", "cartesian"][:n], trailing=[], rect=True))
-            out.append(dict(shells=shells, method="lincomb", types=["cartesian"] * n, trailing=[], rect=False))
+            if n <= 2:
+                out.append(dict(shells=shells, method="lincomb", types=["cartesian"] * n, trailing=[], rect=False))
             out.append(dict(shells=shells, method="lincomb", types=["spherical"] * n, trailing=[2], rect=True))
         return out
 
@@ -345,7 +346,8 @@ class TwoSymm(AssemblyBase):
                 types = shape["types"]
                 ncont = sum(s.norm_cont.shape[0] * (s.norm_cont.shape[1] if t == "cartesian" else 2 * s.angmom + 1)
                             for s, t in zip(shells, types))
-                U = M.vec("U", ((ncont + 1) if shape["rect"] else ncont, ncont))
+                # rectangular: fewer orbitals than contractions (every contraction index is still summed over)
+                U = M.vec("U", (min(3, ncont + 1) if shape["rect"] else ncont, ncont))
                 got = obj.construct_array_lincomb(U, list(types), **kw)
         fr.check(M, "asm", got)
         M.true("asm/kwargs", all(k == kw for _, k in blocks.calls) and len(blocks.calls) > 0, "keyword arguments reach every block call")
@@ -502,7 +504,8 @@ class FourSymm(AssemblyBase):
     def shapes(self, tier):
         out = []
         if tier == "quick":
-            bases = [[dict(l=0, M=2)], [dict(l=0, M=2), dict(l=1, M=1)], [dict(l=1, M=1), dict(l=0, M=1), dict(l=0, M=2)]]
+            bases = [[dict(l=0, M=2)], [dict(l=1, M=2)], [dict(l=0, M=2), dict(l=1, M=1)], [dict(l=1, M=2, conv="perm"), dict(l=0, M=1)],
+                     [dict(l=1, M=1), dict(l=0, M=1), dict(l=0, M=2)]]
         else:
             bases = [[dict(l=0, M=2)], [dict(l=1, M=2, conv="perm")], [dict(l=0, M=2), dict(l=1, M=1)], [dict(l=1, M=1), dict(l=0, M=1), dict(l=0, M=2)],
                      [dict(l=2, M=1), dict(l=0, M=2)], [dict(l=0, M=1), dict(l=1, M=1), dict(l=0, M=2), dict(l=0, M=3)]]
@@ -515,7 +518,8 @@ class FourSymm(AssemblyBase):
                 pats = pats[1:-1:3]
             for pat in pats:
                 out.append(dict(shells=shells, method="mix", types=list(pat), trailing=[]))
-            if n <= 2:
+            ncart = sum(s["M"] * (s["l"] + 1) * (s["l"] + 2) // 2 for s in shells)
+            if n <= 2 and ncart <= 5:
                 out.append(dict(shells=shells, method="lincomb", types=(["spherical", "cartesian"] * 2)[:n], trailing=[], rect=True))
                 out.append(dict(shells=shells, method="cartesian", trailing=[2]))
         return out
@@ -547,7 +551,7 @@ class FourSymm(AssemblyBase):
             else:
                 types = shape["types"]
                 ncont = sum(s.norm_cont.shape[0] * (s.norm_cont.shape[1] if t == "cartesian" else 2 * s.angmom + 1) for s, t in zip(shells, types))
-                U = M.vec("U", (max(1, ncont - 1) if shape["rect"] else ncont, ncont))
+                U = M.vec("U", (min(2, ncont) if shape["rect"] else ncont, ncont))
                 got = obj.construct_array_lincomb(U, list(types), **kw)
         M.true("asm/kwargs", all(k == kw for _, k in blocks.calls) and len(blocks.calls) > 0, "keyword arguments reach every block call")
         M.true("asm/transform-side", all(c == "left" for c in T.calls), "generate_transformation(..., 'left')")
